@@ -133,7 +133,6 @@ theorem wf_enterPre {st : State} {t s : Nat} (h : WF st)
   · have := enterPre_task st t s u
     exact ⟨this.1, this.2.1, this.2.2.1, this.2.2.2.1, this.2.2.2.2.1⟩
   · have := (enterPre_task st t s u).2.2.2.2.2.2.2.2.2.2 (by omega)
-    simp only [] at this
     rw [this]; exact ⟨rfl, rfl⟩
   · have := enterPre_scope st t s x
     exact ⟨this.1, this.2.1⟩
@@ -143,5 +142,85 @@ theorem wf_enterScope {st st' : State} {t s : Nat} (h : WF st)
     (he : enterScope st t s = some st') : WF st' := by
   obtain ⟨_, h2, h3⟩ := enterScope_spec he
   exact wf_cframe (wf_enterPre h h2 hx hr) h3
+
+/-! ### exit -/
+
+theorem forest_exitPre {st : State} {t s : Nat} (h : WF st)
+    (ha : (st.scopes s).active = true) (hh : (st.scopes s).host = some t)
+    (hs : (st.tasks t).scope = some s) :
+    Forest (exitPre st t s).scopes (exitPre st t s).tasks := by
+  have hen := h.active_entered s ha
+  have hex := h.entered_exists s hen
+  have hts := h.task_scope t s hs
+  have eT : (exitPre st t s).tasks = upd st.tasks t ((exitPre st t s).tasks t) := by
+    apply eq_upd_of_agree
+    intro x hx
+    cases hB : (st.scopes s).parent <;> cases hT : (st.scopes s).timer <;>
+      simp [exitPre, exitCore, hx, hB, hT]
+  cases hB : (st.scopes s).parent with
+  | none =>
+    have eS : (exitPre st t s).scopes = upd st.scopes s ((exitPre st t s).scopes s) := by
+      apply eq_upd_of_agree
+      intro x hx
+      cases hT : (st.scopes s).timer <;> simp [exitPre, exitCore, hx, hB, hT]
+    rw [eS, eT]
+    apply h.forest.exit_none ha hh hs hB
+    all_goals (cases hT : (st.scopes s).timer <;> simp [exitPre, exitCore, hB, hT, hen, hex, hts])
+  | some p =>
+    have hps : p ≠ s := by rintro rfl; exact h.parent_ne hB
+    have eS : (exitPre st t s).scopes =
+        upd (upd st.scopes s ((exitPre st t s).scopes s)) p ((exitPre st t s).scopes p) := by
+      apply eq_upd2_of_agree _ (Ne.symm hps)
+      intro x hx1 hx2
+      cases hT : (st.scopes s).timer <;> simp [exitPre, exitCore, hx1, hx2, hB, hT]
+    rw [eS, eT]
+    apply h.forest.exit_some ha hh hs hB
+    all_goals (cases hT : (st.scopes s).timer <;>
+      simp [exitPre, exitCore, hB, hT, hen, hex, hts, hps, Ne.symm hps])
+
+theorem exitPre_frame (st : State) (t s : Nat) :
+    (exitPre st t s).nTasks = st.nTasks ∧ (exitPre st t s).nScopes = st.nScopes ∧
+    (exitPre st t s).nFuts = st.nFuts ∧ (exitPre st t s).nGroups = st.nGroups ∧
+    (exitPre st t s).groups = st.groups ∧ (exitPre st t s).futWaiter = st.futWaiter ∧
+    (exitPre st t s).running = st.running ∧ (∀ x ∈ (exitPre st t s).ready, x ∈ st.ready) ∧
+    (∀ x ∈ (exitPre st t s).cur, x ∈ st.cur) ∧ (∀ x ∈ (exitPre st t s).timers, x ∈ st.timers) ∧
+    (exitPre st t s).futs = st.futs ∧ (exitPre st t s).now = st.now ∧
+    (exitPre st t s).cycle = st.cycle := by
+  cases hB : (st.scopes s).parent <;> cases hT : (st.scopes s).timer <;>
+    simp [exitPre, exitCore, hB, hT] <;> grind
+
+theorem exitPre_task (st : State) (t s u : Nat) :
+    (exitPre st t s).tasks u =
+      if u = t then { st.tasks t with scope := (st.scopes s).parent } else st.tasks u := by
+  by_cases hu : u = t <;> cases hB : (st.scopes s).parent <;> cases hT : (st.scopes s).timer <;>
+    simp [exitPre, exitCore, hB, hT, hu]
+
+theorem exitPre_scope (st : State) (t s x : Nat) :
+    ((exitPre st t s).scopes x).exists_ = (st.scopes x).exists_ ∧
+    ((exitPre st t s).scopes x).deadline = (st.scopes x).deadline ∧
+    ((exitPre st t s).scopes x).shield = (st.scopes x).shield ∧
+    ((exitPre st t s).scopes x).cancelCalled = (st.scopes x).cancelCalled := by
+  cases hB : (st.scopes s).parent <;> cases hT : (st.scopes s).timer <;>
+    simp only [exitPre, exitCore, hB, hT, setScope_scopes, setTask_scopes, unschedule_scopes,
+      Bool.false_eq_true, if_false, if_true] <;>
+    grind
+
+theorem wf_exitPre {st : State} {t s : Nat} (h : WF st)
+    (ha : (st.scopes s).active = true) (hh : (st.scopes s).host = some t)
+    (hs : (st.tasks t).scope = some s) : WF (exitPre st t s) := by
+  have f := exitPre_frame st t s
+  have ht : t < st.nTasks := h.host_lt hh
+  refine h.of_forest f.1 f.2.1 f.2.2.1 f.2.2.2.1 f.2.2.2.2.1 f.2.2.2.2.2.1 f.2.2.2.2.2.2.1
+    f.2.2.2.2.2.2.2.1 f.2.2.2.2.2.2.2.2.1 f.2.2.2.2.2.2.2.2.2.1
+    (fun u => ?_) (fun u hu => ?_) (fun x => ?_) (forest_exitPre h ha hh hs)
+  · rw [exitPre_task]; split <;> simp_all
+  · rw [exitPre_task, if_neg (by omega)]; exact ⟨rfl, rfl⟩
+  · have := exitPre_scope st t s x
+    exact ⟨this.1, this.2.1⟩
+
+theorem wf_exitScope {st st' : State} {t s : Nat} {ev : ExcVal} {r : ExitResult} (h : WF st)
+    (he : exitScope st t s ev = some (st', r)) : WF st' := by
+  obtain ⟨h1, h2, _, h4, h5⟩ := exitScope_spec he
+  exact wf_cframe (wf_exitPre h h1 h2 h4) h5
 
 end AnyioModel.Kernel
